@@ -11,7 +11,7 @@ Stages of one check (DESIGN.md 2.4):
 import json, os, random, re, shutil, subprocess, sys, tempfile, time, hashlib
 
 VERIF = os.path.dirname(os.path.dirname(os.path.abspath(__file__)))
-REPO = '/repo'
+REPO = os.environ.get('VERIF_REPO', '/repo')   # checks always use /repo; VERIF_REPO lets a developer point them at a scratch worktree
 LEAN_DIR = os.path.join(VERIF, 'lean')
 ALLOWED_AXIOMS = {'propext', 'Classical.choice', 'Quot.sound'}
 FORBIDDEN = re.compile(r'\b(sorry|admit|native_decide|bv_decide|implemented_by|unsafe)\b|^\s*axiom\s|maxHeartbeats\s+0')
@@ -172,11 +172,25 @@ class Check:
 
     # ---------------------------------------------------------------- S2
     def build_harness(self, bins=None):
+        hdir = os.path.join(VERIF, 'harness')
+        tdir = os.path.join(VERIF, 'target', 'harness')
+        if REPO != '/repo':
+            # developer mode: a copy of the harness crate whose path dependencies point at the scratch worktree
+            tag = hashlib.sha1(REPO.encode()).hexdigest()[:10]
+            alt = os.path.join(VERIF, 'target', 'harness-alt', tag)
+            os.makedirs(alt, exist_ok=True)
+            shutil.copytree(os.path.join(hdir, 'src'), os.path.join(alt, 'src'), dirs_exist_ok=True)
+            open(os.path.join(alt, 'Cargo.toml'), 'w').write(open(os.path.join(hdir, 'Cargo.toml')).read().replace('"/repo/', f'"{REPO}/'))
+            shutil.copy(os.path.join(REPO, 'Cargo.lock'), os.path.join(alt, 'Cargo.lock'))
+            os.makedirs(os.path.join(alt, '.cargo'), exist_ok=True)
+            tdir = os.path.join(alt, 'target')
+            open(os.path.join(alt, '.cargo', 'config.toml'), 'w').write(f'[net]\noffline = true\n[build]\ntarget-dir = "{tdir}"\n')
+            hdir = alt
         rc, out = sh(['cargo', 'build', '--offline'] + (sum([['--bin', b] for b in bins], []) if bins else []),
-                     cwd=os.path.join(VERIF, 'harness'), timeout=3000)
+                     cwd=hdir, timeout=3000)
         if rc != 0:
             self.fatal('harness build failed (the tie cannot be checked)', out[-4000:])
-        return os.path.join(VERIF, 'target', 'harness', 'debug')
+        return os.path.join(tdir, 'debug')
 
     def build_xvc(self, features=None):
         """Build the xvc binary from /repo's working tree. Hook builds go to /verif/target/hooks."""
